@@ -27,6 +27,9 @@ var (
 	ErrInvalid      = errors.New("invalid")
 )
 
+// ErrEmptyCommand is returned when a request array has no command name.
+var ErrEmptyCommand = errors.New("empty command")
+
 const (
 	errorNotSupportedCommand    = "'%s' is %w"
 	errorMissingCommandArgument = "%s: missing argument (%s) %w"
